@@ -3,10 +3,23 @@ package main
 import (
 	"fmt"
 	"math/rand"
+	"os"
+	"path/filepath"
 	"sort"
+	"strings"
 
+	"github.com/richardmorrey/flap/pkg/db"
+	"github.com/richardmorrey/flap/pkg/flap"
 	"github.com/richardmorrey/flap/pkg/model"
 )
+
+func ZList(l []int64) string {
+	var s []string
+	for _, x := range l {
+		s = append(s, Z(x))
+	}
+	return "[" + strings.Join(s, "; ") + "]"
+}
 
 // C19: weighted choice.  Script = building operations + queries with observed answers.
 
@@ -218,6 +231,17 @@ func runC19(o *Out, rng *Rng, tier string, replay string) {
 		o.AddCase(List(coq), nontrivial, ops)
 		caseNo++
 	}
+	// the weighted choice where the simulation makes it: chooseTrip on country records loaded from the table
+	nTrips := 12
+	if tier == "thorough" {
+		nTrips = 200
+	} else if tier == "search" {
+		nTrips = 50
+	}
+	for c := 0; c < nTrips; c++ {
+		coq, ops, nontrivial := genChooseTrips(o, rng.Fork(), filepath.Join(o.dir, "dbs"), c)
+		o.AddCase(List(coq), nontrivial, ops)
+	}
 	o.FlushCases("C19", "From Coq Require Import ZArith List.\nFrom Flap Require Import Run.RunWeights.\nImport ListNotations.\nOpen Scope Z_scope.",
 		"list (list wop)", "wmismatches 0%nat", 16)
 }
@@ -237,4 +261,151 @@ func bucket(n int) string {
 	default:
 		return ">30"
 	}
+}
+
+// genChooseTrips stores a few countries (weight vectors with zeros, leading zeros, all-zero and empty
+// ones) and calls the real chooseTrip on them in turn, each time with a known pair of underlying draws.
+func genChooseTrips(o *Out, rng *Rng, workdir string, caseNo int) (coq []string, ops []c19op, nontrivial bool) {
+	d := filepath.Join(workdir, fmt.Sprintf("cars%05d", caseNo))
+	os.RemoveAll(d)
+	os.MkdirAll(d, 0o755)
+	defer os.RemoveAll(d)
+	ldb := db.NewLevelDB(d)
+	defer ldb.Release()
+	cars := model.VerifNewCars(ldb)
+	if cars == nil {
+		o.Fail(MonitorFailure{Property: "C19", Signature: "harness-cars", What: "cannot create the countries table"})
+		return
+	}
+	type country struct {
+		cc       string
+		airports []string
+		dests    [][]string
+		ws       [][]int64
+	}
+	var cs []country
+	nC := rng.Range(2, 4)
+	for k := 0; k < nC; k++ {
+		c := country{cc: fmt.Sprintf("%c%c%c", 'A'+k, 'A'+k, 'A'+k)}
+		nA := rng.Range(1, 4)
+		for a := 0; a < nA; a++ {
+			c.airports = append(c.airports, fmt.Sprintf("%c%c%cQ", 'A'+k, 'A'+a, 'K'))
+			nR := rng.Range(0, 4)
+			if rng.Chance(1, 2) {
+				nR = rng.Range(1, 4)
+			}
+			var ds []string
+			var ws []int64
+			for r := 0; r < nR; r++ {
+				ds = append(ds, fmt.Sprintf("%c%c%cZ", 'N'+k, 'A'+a, 'A'+r))
+				w := int64([]int{0, 0, 1, 1, 2, 3, 10, 100}[rng.Intn(8)])
+				ws = append(ws, w)
+			}
+			c.dests = append(c.dests, ds)
+			c.ws = append(c.ws, ws)
+		}
+		if err := cars.PutCountry(c.cc, c.airports, c.dests, c.ws); err != nil {
+			o.Fail(MonitorFailure{Property: "C19", Signature: "harness-putcountry", What: err.Error()})
+			return
+		}
+		cs = append(cs, c)
+	}
+	sum := func(ws []int64) int64 {
+		var t int64
+		for _, w := range ws {
+			t += w
+		}
+		return t
+	}
+	pick := func(ws []int64, r int64) int { // the reference: draw r in [0,total) selects the first entry whose running total exceeds r
+		var cum int64
+		for i, w := range ws {
+			cum += w
+			if r < cum {
+				return i
+			}
+		}
+		return -1
+	}
+	zeroSeen, okSeen := false, false
+	for n := 0; n < rng.Range(10, 30); n++ {
+		c := cs[rng.Intn(len(cs))]
+		var totals []int64
+		for _, ws := range c.ws {
+			totals = append(totals, sum(ws))
+		}
+		seed := int64(rng.U64() >> 2)
+		rand.Seed(seed)
+		r1, r2 := int64(0), int64(0)
+		if t := sum(totals); t > 0 {
+			r1 = rand.Int63n(t)
+			if a := pick(totals, r1); a >= 0 {
+				if ta := sum(c.ws[a]); ta > 0 {
+					r2 = rand.Int63n(ta)
+				}
+			}
+		}
+		rand.Seed(seed)
+		var obsA, obsR int64
+		func() {
+			defer func() {
+				if x := recover(); x != nil {
+					obsA, obsR = -7, -7
+					o.Fail(MonitorFailure{Property: "C19", Signature: "choosetrip-panics", What: fmt.Sprintf("chooseTrip panicked on country %s with airport weights %v: %v", c.cc, c.ws, x), Replay: ops})
+				}
+			}()
+			from, to, err := cars.ChooseTrip(flap.NewPassport("012345678", c.cc))
+			if err != nil {
+				obsA = int64(model.VerifChooseErrCode(err))
+				// which of the two choices failed: the first fails exactly when the country's total weight is 0 or it has no airports
+				if sum(totals) > 0 {
+					obsR = obsA
+					obsA = int64(pick(totals, r1))
+				}
+				return
+			}
+			obsA, obsR = -8, -8
+			for i, a := range c.airports {
+				if flap.NewICAOCode(a) == from {
+					obsA = int64(i)
+					for j, dcode := range c.dests[i] {
+						if flap.NewICAOCode(dcode) == to {
+							obsR = int64(j)
+						}
+					}
+				}
+			}
+		}()
+		var aw []string
+		for _, ws := range c.ws {
+			aw = append(aw, ZList(ws))
+		}
+		coq = append(coq, fmt.Sprintf("WTrip [%s] %d %d %s %s", strings.Join(aw, "; "), r1, r2, Z(obsA), Z(obsR)))
+		ops = append(ops, c19op{Kind: "choosetrip:" + c.cc, A: r1, Obs: []int64{r2, obsA, obsR}})
+		// the property's own text on the real call: a zero-weight entry is never chosen
+		if obsA >= 0 && obsA < int64(len(totals)) {
+			okSeen = true
+			if totals[obsA] == 0 {
+				o.Fail(MonitorFailure{Property: "C19", Signature: "zero-weight-entry-chosen", What: fmt.Sprintf("chooseTrip on country %s (airport totals %v) chose airport %d, whose weight is 0", c.cc, totals, obsA), Replay: ops})
+			} else if obsR >= 0 && obsR < int64(len(c.ws[obsA])) && c.ws[obsA][obsR] == 0 {
+				o.Fail(MonitorFailure{Property: "C19", Signature: "zero-weight-entry-chosen", What: fmt.Sprintf("chooseTrip on country %s chose route %d of airport %d, whose weight is 0 (weights %v)", c.cc, obsR, obsA, c.ws[obsA]), Replay: ops})
+			}
+			if want := int64(pick(totals, r1)); want != obsA {
+				o.Fail(MonitorFailure{Property: "C19", Signature: "draw-selects-wrong-entry", What: fmt.Sprintf("chooseTrip on country %s: draw %d of %d selects airport %d, entry %d expected (totals %v)", c.cc, r1, sum(totals), obsA, want, totals), Replay: ops})
+			} else if obsR >= 0 {
+				if wantR := int64(pick(c.ws[obsA], r2)); wantR != obsR {
+					o.Fail(MonitorFailure{Property: "C19", Signature: "draw-selects-wrong-entry", What: fmt.Sprintf("chooseTrip on country %s airport %d: draw %d selects route %d, entry %d expected (weights %v)", c.cc, obsA, r2, obsR, wantR, c.ws[obsA]), Replay: ops})
+				}
+			}
+		}
+		for _, ws := range c.ws {
+			for _, w := range ws {
+				if w == 0 {
+					zeroSeen = true
+				}
+			}
+		}
+		o.Count("choosetrip_calls")
+	}
+	return coq, ops, zeroSeen && okSeen
 }
